@@ -172,6 +172,14 @@ def same_named_class_probe():
     out = []
     if a == b or b == a or not (a != b):
         out.append("eq-same-named-other-class")
+    # instances of the base class itself are nodes too: == looks at their origin like everywhere else (seeded change C02-11)
+    from pyoak.node import ASTNode
+    from pyoak.origin import CodeOrigin, MemoryTextSource, get_code_range
+    src = MemoryTextSource(_raw="abcdef")
+    o1, o2 = CodeOrigin(src, get_code_range(0, 1, 0, 2, 1, 2)), CodeOrigin(src, get_code_range(2, 1, 2, 4, 1, 4))
+    p, q, r = ASTNode(origin=o1), ASTNode(origin=o2), ASTNode(origin=o1)
+    if p == q or not (p != q) or not (p == r) or (p != r):
+        out.append("eq-bare-astnode-origin")
     return out
 
 
